@@ -9,8 +9,11 @@
     primitive through the class factory;
 (T) TLC-planned byte/text mutation sequences (Plan_KeysetBytes) and, thorough tier, Go's fuzzing engine
     as an input source; every recorded outcome is judged by Trace_KeysetValidate (TLC)."""
+import glob
 import json
 import os
+import shutil
+import subprocess
 
 TRACE = "Trace_KeysetValidate"
 
@@ -118,7 +121,9 @@ def key_expectations(ctx, trace):
 
 
 def judge(ctx, trace, stage, replay_of):
-    mism, n = ctx.validate_events(TRACE, trace, stage=stage)
+    n_ev = sum(1 for _ in open(trace))
+    shards = 16 if ctx.thorough else max(1, min(5, n_ev // 2500))
+    mism, n = ctx.validate_events(TRACE, trace, stage=stage, shards=shards, heap="4g")
     for m in mism:
         ctx.violation(signature(m), "%s (spec: %s)" % (m["bad"][0], m["bad"][1:]),
                       dict(event=m["event"], spec_says=m["bad"], **replay_of(m["event"])))
@@ -137,6 +142,8 @@ def run(ctx):
     drv = ctx.go_build("c14")
     if ctx.replay:
         obj = json.load(open(ctx.replay))
+        if obj.get("mode") == "crasher":
+            return replay_crasher(ctx, obj)
         trace = os.path.join(ctx.scratch, "replay.ndjson")
         plan = os.path.join(ctx.scratch, "replay.plan")
         open(plan, "w").write(json.dumps(obj["row"]) + "\n")
@@ -152,7 +159,8 @@ def run(ctx):
     ctx.model_check("MC_KeysetValidate", "MC_KeysetValidate_quick", stage="M:<=2 keys, full per-key domain", workers=2)
     # ---------------- (R) structural
     plan = os.path.join(ctx.scratch, "plan-structural.ndjson")
-    r = ctx.tlc("Plan_KeysetValidate", workers=1, heap="6g", env={"VERIF_OUT": plan}, extra=tlc_seed, timeout=1800)
+    r = ctx.tlc("Plan_KeysetValidate", workers=1, heap="6g", extra=tlc_seed, timeout=3000,
+                env={"VERIF_OUT": plan, "VERIF_SAMPLE2": 800, "VERIF_SAMPLE3": 800, "VERIF_NEAR3": 30})
     if not r.ok:
         raise ctx.infra("structural plan: %s" % (r.error or r.summary()))
     rows = open(plan).read().splitlines()
@@ -188,6 +196,98 @@ def run(ctx):
         ctx.sample(json.loads(klines[k]))
     if not kmism:
         ctx.negative_control(TRACE, ktr, corrupt, window=120, stage="NC:keys")
+    # ---------------- (T) byte level: TLC-planned mutation sequences
+    bplan = os.path.join(ctx.scratch, "plan-bytes.ndjson")
+    r = ctx.tlc("Plan_KeysetBytes", workers=1, heap="4g", env={"VERIF_OUT": bplan}, extra=tlc_seed, timeout=1800)
+    if not r.ok:
+        raise ctx.infra("byte plan: %s" % (r.error or r.summary()))
+    brows = open(bplan).read().splitlines()
+    btr = os.path.join(ctx.scratch, "c14-bytes.ndjson")
+    ctx.run([drv, "-mode", "bytes", "-plan", bplan, "-out", btr], timeout=2400)
+    bmism, bn = judge(ctx, btr, "T:planned byte/text mutations",
+                      lambda e: dict(mode="bytes", n=e["n"], row=json.loads(brows[e["n"] - 1])))
+    acc = sum(1 for line in open(btr) if '"out":"handle"' in line)
+    ctx.stage("T:bytes", cases=bn, mutants_accepted_somewhere=acc)
+    ctx.cov["traces_validated_against_impl"] += bn
+    blines = open(btr).read().splitlines()
+    ctx.sample(json.loads(blines[len(blines) // 2]))
+    if acc == 0:
+        raise ctx.infra("no planned mutant was accepted anywhere: the accepted-handle invariants were not exercised")
+    if not bmism:
+        ctx.negative_control(TRACE, btr, corrupt, window=120, stage="NC:bytes")
+    # ---------------- (T) Go's fuzzing engine as an input source
+    if ctx.thorough:
+        fuzz_stage(ctx, int(os.environ.get("VERIF_FUZZTIME", "240")))
+
+
+def fuzz_workdir(ctx):
+    vroot = os.path.dirname(os.path.dirname(os.path.abspath(__file__)))
+    work = os.path.join(ctx.scratch, "fz")
+    os.makedirs(os.path.join(work, "cmd"))
+    mod = open(os.path.join(vroot, "harness", "go.mod")).read()
+    alt = os.environ.get("VERIF_REPO")
+    if alt:
+        mod = mod.replace("=> /repo", "=> " + alt)
+    open(os.path.join(work, "go.mod"), "w").write(mod)
+    shutil.copy(os.path.join(vroot, "harness", "go.sum"), os.path.join(work, "go.sum"))
+    shutil.copytree(os.path.join(vroot, "harness", "vt"), os.path.join(work, "vt"))
+    shutil.copytree(os.path.join(vroot, "harness", "cmd", "c14"), os.path.join(work, "cmd", "c14"))
+    return work
+
+
+def replay_crasher(ctx, obj):
+    """Re-run a recorded fuzz crasher (Go corpus file format) against the current tree."""
+    work = fuzz_workdir(ctx)
+    d = os.path.join(work, "cmd", "c14", "testdata", "fuzz", "FuzzKeysetReaders")
+    os.makedirs(d)
+    open(os.path.join(d, "replay"), "w").write(obj["crasher"])
+    r = subprocess.run(["go", "test", "-tags", "verif", "-run", "FuzzKeysetReaders/replay", "./cmd/c14"], cwd=work, env=ctx.env(),
+                       capture_output=True, text=True, timeout=1800)
+    if r.returncode != 0:
+        ctx.violation("replay", "the crasher still kills the test process: " + (r.stdout + r.stderr)[-600:], dict(mode="crasher", crasher=obj["crasher"]))
+
+
+def fuzz_stage(ctx, budget_s):
+    """Go's native fuzzing engine as an input source (thorough tier): run in a scratch copy of the harness module (so
+    that crashers and corpus files never land in /verif), honouring VERIF_REPO; the logged outcomes are judged by TLC."""
+    work = fuzz_workdir(ctx)
+    log = os.path.join(ctx.scratch, "fuzzlog")
+    env = ctx.env(C14_FUZZ_LOG=log)
+    argv = ["go", "test", "-tags", "verif", "-run", "XXX_none", "-fuzz", "FuzzKeysetReaders", "-fuzztime", "%ds" % budget_s,
+            "-parallel", "6", "./cmd/c14"]
+    try:
+        r = subprocess.run(argv, cwd=work, env=env, capture_output=True, text=True, timeout=budget_s + 900)
+    except subprocess.TimeoutExpired:
+        raise ctx.infra("go test -fuzz did not finish")
+    tail = (r.stdout + r.stderr)[-3000:]
+    crashers = sorted(glob.glob(os.path.join(work, "cmd", "c14", "testdata", "fuzz", "FuzzKeysetReaders", "*")))
+    execs = 0
+    for line in r.stdout.splitlines():
+        if "execs:" in line:
+            try:
+                execs = int(line.split("execs:")[1].split()[0])
+            except ValueError:
+                pass
+    if r.returncode != 0:
+        if not crashers:
+            raise ctx.infra("go test -fuzz failed without a crasher: " + tail)
+        for c in crashers:
+            ctx.violation("fuzz crash (unrecoverable) in a keyset reader", "the fuzz worker died on this input; go test output: " + tail[-600:],
+                          dict(mode="crasher", crasher=open(c).read()))
+    tr = os.path.join(ctx.scratch, "c14-fuzz.ndjson")
+    with open(tr, "w") as out:
+        for f in sorted(glob.glob(log + ".*")):
+            for line in open(f):
+                if line.endswith("\n") and line.strip():
+                    out.write(line)
+    n = sum(1 for _ in open(tr))
+    ctx.stage("T:go-fuzz", execs=execs, logged_events=n, fuzztime_s=budget_s, crashers=len(crashers))
+    ctx.log("go fuzz: %d execs, %d logged events" % (execs, n))
+    if n == 0:
+        raise ctx.infra("fuzz stage logged nothing: " + tail)
+    judge(ctx, tr, "T:fuzz-generated inputs",
+          lambda e: dict(mode="bytes", n=e["n"], row=dict(seed=0, form=e["form"], ops=[], input=e["input"])))
+    ctx.cov["traces_validated_against_impl"] += n
 
 
 MANIFEST = dict(
